@@ -178,3 +178,8 @@ Proof.
     apply sub_take. specialize (IH false {| z_pre := ch :: z_pre z; z_rest := rest; z_idx := S (z_idx z) |}). exact IH.
 Qed.
 End Sub.
+
+(* the ASCII letters and digits, and the projection of a string on them *)
+Definition alnum : list Z :=
+  map Z.of_nat (seq 48 10 ++ seq 65 26 ++ seq 97 26).
+Definition letters (s : list Z) : list Z := proj alnum s.
